@@ -45,6 +45,22 @@ impl Cfg {
             mk(vec![KfSpec { pos: 0.5, vals: vec![Some(0.5)], easing: None }, KfSpec { pos: 1.0, vals: vec![Some(1.0)], easing: None }]),
         ]
     }
+    /// A third probe with three non-collinear keyframes (0 % -> 0, 50 % -> 1, 100 % -> 0.25): where a timeline rests
+    /// before its start and after its end (0 % again when reversing) shows in the value, which the linear probes
+    /// cannot tell from an extrapolated neighbour segment.
+    fn probe3(&self) -> <S1 as Shape>::Tl {
+        S1::build_tl(&TlSpec {
+            cycle: self.cycle, delay: self.delay, repeat: self.rep, reverse: self.rev, default_easing: None,
+            kfs: vec![
+                KfSpec { pos: 0.0, vals: vec![Some(0.0)], easing: None },
+                KfSpec { pos: 0.5, vals: vec![Some(1.0)], easing: None },
+                KfSpec { pos: 1.0, vals: vec![Some(0.25)], easing: None },
+            ],
+        })
+    }
+    fn probe3_want(p: f64) -> f64 {
+        if p <= 0.5 { 2.0 * p } else { 1.0 - 0.75 * (2.0 * p - 1.0) }
+    }
     /// The first probe wrapped into a `MergedTimeline` (the form every timeline takes inside a state animator).
     fn merged_probe(&self) -> mina::MergedTimeline<<S1 as Shape>::Tl> {
         let [p, _] = self.probe();
@@ -491,6 +507,7 @@ pub fn run(run: &mut Run) {
             let ts = cfg.ts();
             let probe = cfg.probe();
             let merged = cfg.merged_probe();
+            let probe3 = cfg.probe3();
             let cycles = cfg.rep.cycles().unwrap_or(70).min(70) as u32;
             let jmax = (cycles + 2) * (sub as f32 * cfg.cycle) as u32 + (4.0 * sub as f32) as u32;
             let case = |t: f32, what: &str| case_json(STREAM_GRID, ci, vec![("config", cfg.json()), ("t", J::F(t as f64)), ("clause", J::s(what))]);
@@ -539,6 +556,19 @@ pub fn run(run: &mut Run) {
                     }
                 }
                 if j % 16 == 0 {
+                    {
+                        let mut v = S1 { x: 0.375 };
+                        probe3.update(&mut v, t);
+                        acc.eval();
+                        let want = Cfg::probe3_want(m.p);
+                        if (v.x as f64 - want).abs() > 1e-6 {
+                            acc.violation(
+                                format!("c03:grid-route-3kf:{}", m.class()),
+                                format!("update of the three-keyframe probe (0 -> 1 -> 0.25) gives {} at t={t} ({}), position {} means {want} for {:?}", v.x, m.class(), m.p, cfg),
+                                case(t, "update-route-three-keyframes"),
+                            );
+                        }
+                    }
                     {
                         let mut v = S1 { x: 0.25 };
                         merged.update(&mut v, t);
@@ -593,6 +623,7 @@ pub fn run(run: &mut Run) {
             let cfg = &odd_cfgs[ci as usize];
             let ts = cfg.ts();
             let merged = cfg.merged_probe();
+            let probe3 = cfg.probe3();
             let kmax = cfg.rep.cycles().unwrap_or(6).min(6) + 1;
             let case = |t: f32, what: &str| case_json(STREAM_ODD, ci, vec![("config", cfg.json()), ("t", J::F(t as f64)), ("clause", J::s(what))]);
             let jstep = if thorough { 1 } else { 4 };
@@ -622,6 +653,17 @@ pub fn run(run: &mut Run) {
                     }
                     acc.sig(format!("odd|{}|{}|{}", cfg.rep.class(), cfg.rev, m.class()));
                     if j % 16 == 0 {
+                        let mut v3 = S1 { x: 0.375 };
+                        probe3.update(&mut v3, t);
+                        acc.eval();
+                        let want = Cfg::probe3_want(m.p);
+                        if (v3.x as f64 - want).abs() > 1e-6 {
+                            acc.violation(
+                                format!("c03:odd-grid-route-3kf:{}", m.class()),
+                                format!("update of the three-keyframe probe (0 -> 1 -> 0.25) gives {} at t={t} ({}), position {} means {want} for {:?}", v3.x, m.class(), m.p, cfg),
+                                case(t, "update-route-three-keyframes"),
+                            );
+                        }
                         let mut v = S1 { x: 0.25 };
                         merged.update(&mut v, t);
                         acc.eval();
